@@ -130,7 +130,18 @@ def search(rep: C.Report, tier: str, broken):
         if not modes_first:
             f.setExtrapolationType(ml, mu)
         if r.random() < 0.4:
-            f.extendInterpolationTable(lo_ - r.randint(0, 3), hi_ + r.randint(0, 3), r.choice((0, 2, 4)), r.choice((0, 2, 4)))
+            # bounds that are NOT exactly representable multiples of the spacing: the extended table must end exactly there
+            nlo, nhi = lo_ - r.randint(0, 3) - r.choice((0.0, 0.3 + r.random() / 3)), hi_ + r.randint(0, 3) + r.choice((0.0, 0.3 + r.random() / 7))
+            pmin, pmax = r.choice((0, 1, 2, 3, 4)), r.choice((0, 1, 2, 3, 4))
+            before = (f.interpolationRangeMin(), f.interpolationRangeMax())
+            f.extendInterpolationTable(nlo, nhi, pmin, pmax)
+            want = (nlo if (nlo < before[0] and pmin > 0) else before[0], nhi if (nhi > before[1] and pmax > 0) else before[1])
+            got = (f.interpolationRangeMin(), f.interpolationRangeMax())
+            rep.count("table extensions")
+            if got != want and not f.badpts:
+                rep.violation("an extended table does not end exactly at the requested bounds (the requested end point is out of range)",
+                              {"k": k, "table": [lo_, hi_, npt], "extend_to": [nlo, nhi], "points": [pmin, pmax], "range_after": list(got),
+                               "expected_range": list(want)}, finding_key="C18:extension-misses-requested-end")
         info = {"k": k, "coef": coef[:k], "modes": [ml.name, mu.name], "table": [lo_, hi_, npt], "bad": f.badpts}
         pts = np.asarray(f._interpolationPoints)
         # invariant: strictly increasing, bad points left out individually (and only those)
@@ -252,10 +263,41 @@ def search(rep: C.Report, tier: str, broken):
             g.badpts = []
             g.readInterpolationTable(fn)
             os.unlink(fn)
-            zz = np.linspace(rmin, rmax, 13)
+            # the file holds 15 significant digits: abscissae that are not short decimals come back rounded in the last place
+            zz = np.linspace(rmin, rmax, 15)[1:-1]
             rep.count("file round trips")
-            if g.numPoints() != f.numPoints() or not np.allclose(np.asarray(g._interpolatedFunction(zz)), np.asarray(f._interpolatedFunction(zz)), rtol=1e-12, atol=1e-12):
+            ends_ok = abs(g.interpolationRangeMin() - rmin) <= 1e-14 * max(1, abs(rmin)) and abs(g.interpolationRangeMax() - rmax) <= 1e-14 * max(1, abs(rmax))
+            if g.numPoints() != f.numPoints() or not ends_ok or not np.allclose(np.asarray(g._interpolatedFunction(zz)), np.asarray(f._interpolatedFunction(zz)), rtol=1e-10, atol=1e-10):
                 rep.violation("writing a table and reading it back does not reproduce the same function", info, finding_key="C18:roundtrip")
+    # directed: extension of tables lying at negative / mixed-sign abscissae to arbitrary float bounds ends exactly there, and the
+    # requested end points are IN range afterwards (no error in ERROR mode, no second adaptive extension)
+    cls = make(1, [[1, 2, 0, 1]] * 4)
+    for _ in range(60 if tier == "quick" else 1500):
+        f = cls(bUseAdaptiveInterpolation=False, initialInterpolationPointCount=10, returnValueCount=1)
+        f.badpts = []
+        a = -r.randint(1, 12) * 9 / 8
+        b = a + r.randint(1, 8) * 9 / 8
+        f.newInterpolationTable(a, b, r.choice((4, 5, 9)))
+        f.setExtrapolationType(E.ERROR, E.ERROR)
+        # bounds drawn independently of the table ends (not on the floating-point grid of the end points)
+        nlo = r.uniform(a - 3, a - 1e-3)
+        nhi = r.choice((r.uniform(b + 1e-3, b + 3), r.uniform(-1e-2, 1e-2), 10 ** r.uniform(-6, 0)))
+        if nhi <= b:
+            nhi = r.uniform(b + 1e-3, b + 3)
+        pmin, pmax = r.randint(1, 5), r.randint(1, 5)
+        f.extendInterpolationTable(nlo, nhi, pmin, pmax)
+        rep.case(key=("extension-ends", round(a, 2), round(b, 2), pmin, pmax))
+        rep.count("directed table extensions")
+        info = {"table": [a, b], "extend_to": [nlo, nhi], "points": [pmin, pmax], "range_after": [f.interpolationRangeMin(), f.interpolationRangeMax()]}
+        ok = f.interpolationRangeMin() == nlo and f.interpolationRangeMax() == nhi
+        if ok:
+            try:
+                f(np.array([nlo, nhi]))
+            except ValueError:
+                ok = False
+        if not ok:
+            rep.violation("an extended table does not end exactly at the requested bounds (the requested end point is out of range)", info,
+                          finding_key="C18:extension-misses-requested-end")
     # directed history for the mid-call adaptive update (Lean: Props.C18.finding_midcall_update)
     cls = make(1, [[1, 2, 0, 1]] * 4)
     f = cls(bUseAdaptiveInterpolation=True, initialInterpolationPointCount=10, returnValueCount=1)
